@@ -39,3 +39,18 @@ Qed.
 
 Theorem chebyshev_is_cos n q th : Q2R q = cos th -> Q2R (chebyshev_rec n q) = cos (INR n * th).
 Proof. intros H. rewrite chebyshev_rec_Q2R, H. apply chebyshev_R_is_cos. Qed.
+
+(* the textbook definition verbatim: T_n(x) = cos(n arccos x) for every order n and every abscissa of [-1, 1] *)
+Theorem chebyshev_is_cos_acos n q : (-1 <= q)%Q -> (q <= 1)%Q ->
+  Q2R (chebyshev_rec n q) = cos (INR n * acos (Q2R q)).
+Proof.
+  intros H1 H2. apply chebyshev_is_cos. symmetry. apply cos_acos.
+  apply Qle_Rle in H1. apply Qle_Rle in H2.
+  replace (Q2R (-1)) with (-1) in H1 by (unfold Q2R; simpl; field).
+  replace (Q2R 1) with 1 in H2 by (unfold Q2R; simpl; field).
+  split; assumption.
+Qed.
+
+(* hence |T_n| <= 1 on [-1, 1] *)
+Corollary chebyshev_bounded n q : (-1 <= q)%Q -> (q <= 1)%Q -> -1 <= Q2R (chebyshev_rec n q) <= 1.
+Proof. intros H1 H2. rewrite chebyshev_is_cos_acos by assumption. apply COS_bound. Qed.
